@@ -826,6 +826,21 @@ def step_cast(R):
             return goals
 
         verify(R, "VM.step.CAST", EXEC, run, label=f"{src}->{dst}")
+    # vectors are converted component by component
+    for n in (2, 3, 4):
+        for src, dst in (("i", "f"), ("u", "f"), ("f", "f"), ("i", "i")):
+            def runv(ctx, n=n, src=src, dst=dst):
+                h = Harness({"p": T("i")})
+                v = h.value(vec(src, n))
+                ins = h.add(ir.CastInstruction(v, vec(dst, n)))
+                x = sym_of(ctx, vec(src, n), "x")
+                orig = list(x)
+                h.start([0], {v: x}, ins)
+                h.step()
+                got = h.post["localScope"].get(ins.Reference)
+                return [("value", veq(got, [c.t for c in orig])), ("source-intact", z3.BoolVal(len(x) == n and all(a is b for a, b in zip(x, orig))))] + frame_goals(h, writes_local=[ins.Reference])
+
+            verify(R, "VM.step.CAST", EXEC, runv, label=f"{src}{n}->{dst}{n}")
 
 
 # ---------------------------------------------------------------------------
